@@ -16,7 +16,10 @@ for every interval. `api <st|bl|bu|bc|wl|wu|wc> <op.op…>`: set / get / clone /
 `mtp <W> <threads> <per> <r0,r1,…>`: paced rounds: in round k every thread's clock reads r_k, `per` calls per thread;
 round k ends before round k+1 starts, so the witness schedule is built round by round.
 `mtreal <W> <threads> <rounds> <per> <pause_us>`: the same on the REAL clock: the readings are existentially
-quantified (a value above its predecessor is a clock reading, otherwise it must be predecessor + 1). -/
+quantified (a value above its predecessor is a clock reading, otherwise it must be predecessor + 1).
+`page <n|start/step> <exec>+<exec>…`: paged executions one after another on one hooked connection with the counting
+generator (or none); exec = `<q|e|p|i>:<n|explicit ts>:<s|saved page>:<r0.r1.…>` (per page: re-sent frames); output per
+exec `<ts>@<paging state>,…#<generator calls>`. -/
 namespace ScyllaVerif.Drive.C18
 open ScyllaVerif.Util ScyllaVerif.Timestamp
 
@@ -174,8 +177,44 @@ def parseApiOp (w : String) : Option ApiOp :=
 def optList (xs : List (Option Int)) : String :=
   if xs.isEmpty then "-" else ",".intercalate (xs.map fun | some v => toString v | none => "n")
 
+
+/-- `<k>:<ts>:<from>:<r0.r1…>` → (explicit timestamp, pages) -/
+def parseExec (w : String) : Option (Option Int × List (Option Nat × Nat)) :=
+  match w.splitOn ":" with
+  | [k, ts, frm, rs] =>
+    if !(k == "q" || k == "e" || k == "p" || k == "i") then none else
+    let tsO : Option (Option Int) := if ts == "n" then some none else ts.toInt?.map some
+    let frmO : Option (Option Nat) := if frm == "s" then some none else frm.toNat?.map some
+    match tsO, frmO, (rs.splitOn ".").mapM (·.toNat?) with
+    | some t, some f, some resends =>
+      -- a QUERY has no re-send path; the pager always starts from the start state
+      if (k == "q" && resends.any (· != 0)) || (k == "i" && f.isSome) || resends.any (· > 1) then none else
+      let base := f.getD 0
+      some (t, resends.zipIdx.map fun (r, j) => ((if j == 0 then f else some (base + j)), r))
+    | _, _, _ => none
+  | _ => none
+
+def pageFrameStr (f : PageFrame) : String :=
+  (match f.timestamp with | some t => toString t | none => "n") ++ "@" ++
+  (match f.paging with | some k => toString k | none => "s")
+
+def execStr (r : List PageFrame × Nat) : String :=
+  ",".intercalate (r.1.map pageFrameStr) ++ "#" ++ toString r.2
+
 def run (case impl : String) : String :=
   match words case with
+  | ["page", g, execs] =>
+    let genO : Option (Option (Int × Int)) :=
+      if g == "n" then some none else
+      match g.splitOn "/" with
+      | [a, b] => match a.toInt?, b.toInt? with
+        | some a, some b => some (some (a, b))
+        | _, _ => none
+      | _ => none
+    match genO, (execs.splitOn "+").mapM parseExec with
+    | some none, some es => "+".intercalate ((pagedExecs none (0, 0) es).map execStr)
+    | some (some (start, step)), some es => "+".intercalate ((pagedExecs (some (ctrGen step)) (start, 0) es).map execStr)
+    | _, _ => "bad-case"
   | ["api", kind, ops] =>
     match (ops.splitOn ".").mapM parseApiOp with
     | none => "bad-case"
